@@ -1059,3 +1059,83 @@ Proof.
   destruct Lv as [|l1 Lv]; [discriminate|]. cbn in B. inversion B; subst l1. cbn [dropk lv_locals lv_ups tl]. inversion H; subst.
   exists Lv. split; reflexivity.
 Qed.
+
+
+(* ------------------------------------------------------------------------------------------ *)
+(* the loop context only influences jump operands: sizes and all other results do not depend on it *)
+
+Definition nres_sz (r1 r2 : option nres) : Prop :=
+  match r1, r2 with
+  | Some (c1, L1, U1, E1, f1), Some (c2, L2, U2, E2, f2) => code_size c1 = code_size c2 /\ L1 = L2 /\ U1 = U2 /\ E1 = E2 /\ f1 = f2
+  | None, None => True
+  | _, _ => False
+  end.
+
+Lemma nres_sz_refl : forall r, nres_sz r r.
+Proof. intros [[[[[c L] U] E] f]|]; cbn; auto. Qed.
+
+Definition nstmt_szP (cf : cfg) (s : stmt) : Prop := forall L d U E fs pos l1 l2, lc_depth l1 = lc_depth l2 ->
+  nres_sz (nstmt cf s L d U E fs pos (Some l1)) (nstmt cf s L d U E fs pos (Some l2)).
+Definition nlist_szP (cf : cfg) (b : list stmt) : Prop := forall L d U E fs pos l1 l2, lc_depth l1 = lc_depth l2 ->
+  nres_sz (nlist cf b d L U E fs pos (Some l1)) (nlist cf b d L U E fs pos (Some l2)).
+
+Lemma nlist_sz_aux : forall cf b, Forall (nstmt_szP cf) b -> nlist_szP cf b.
+Proof.
+  intros cf b H. induction H as [|a r Ha Hr IH]; intros L d U E fs pos l1 l2 Hd; cbn [nlist]; [cbn; auto|].
+  specialize (Ha L d U E fs pos l1 l2 Hd). unfold nres_sz in Ha.
+  destruct (nstmt cf a L d U E fs pos (Some l1)) as [[[[[c1 L1] U1] E1] f1]|];
+    destruct (nstmt cf a L d U E fs pos (Some l2)) as [[[[[c2 L2] U2] E2] f2]|]; try contradiction; [|exact I].
+  destruct Ha as (Hs & -> & -> & -> & ->). rewrite Hs.
+  specialize (IH L2 d U2 E2 f2 (pos + code_size c2) l1 l2 Hd). unfold nres_sz in IH.
+  destruct (nlist cf r d L2 U2 E2 f2 (pos + code_size c2) (Some l1)) as [[[[[c3 L3] U3] E3] f3]|];
+    destruct (nlist cf r d L2 U2 E2 f2 (pos + code_size c2) (Some l2)) as [[[[[c4 L4] U4] E4] f4]|]; try contradiction; [|exact I].
+  destruct IH as (Hs2 & -> & -> & -> & ->). cbn. rewrite !code_size_app. auto.
+Qed.
+
+Lemma nblk_sz_aux : forall cf b, nlist_szP cf b -> forall L d U E fs pos l1 l2, lc_depth l1 = lc_depth l2 ->
+  nres_sz (nblk cf b d L U E fs pos (Some l1)) (nblk cf b d L U E fs pos (Some l2)).
+Proof.
+  intros cf b Hb L d U E fs pos l1 l2 Hd. unfold nblk. specialize (Hb L (S d) U E fs pos l1 l2 Hd). unfold nres_sz in Hb.
+  destruct (nlist cf b (S d) L U E fs pos (Some l1)) as [[[[[c1 L1] U1] E1] f1]|];
+    destruct (nlist cf b (S d) L U E fs pos (Some l2)) as [[[[[c2 L2] U2] E2] f2]|]; try contradiction; [|exact I].
+  destruct Hb as (Hs & -> & -> & -> & ->). cbn. rewrite !code_size_app. auto.
+Qed.
+
+Lemma nstmt_lc_sz : forall cf s, stmt6u s = true -> nstmt_szP cf s.
+Proof.
+  intros cf s Hs. pattern s. revert s Hs. apply stmt6u_ind.
+  - intros x e He L d U E fs pos l1 l2 Hd. cbn [nstmt]. apply nres_sz_refl.
+  - intros x e He L d U E fs pos l1 l2 Hd. cbn [nstmt]. apply nres_sz_refl.
+  - intros e He L d U E fs pos l1 l2 Hd. cbn [nstmt]. apply nres_sz_refl.
+  - intros e He L d U E fs pos l1 l2 Hd. cbn [nstmt]. apply nres_sz_refl.
+  - intros e He L d U E fs pos l1 l2 Hd. cbn [nstmt]. apply nres_sz_refl.
+  - intros b Hb IH L d U E fs pos l1 l2 Hd. rewrite !nstmt_block. apply nblk_sz_aux; [now apply nlist_sz_aux|exact Hd].
+  - intros f ps b Hb IH L d U E fs pos l1 l2 Hd. rewrite !nstmt_fun. apply nres_sz_refl.
+  - intros x ps b Hb IH L d U E fs pos l1 l2 Hd. rewrite !nstmt_lam. apply nres_sz_refl.
+  - intros i n b Hb IH L d U E fs pos l1 l2 Hd. rewrite !nstmt_loop. apply nres_sz_refl.
+  - intros a c t e Ha Hc Ht He IHt IHe L d U E fs pos l1 l2 Hd. rewrite !nstmt_if.
+    destruct (nexpr cf L a U E) as [[[ca U1] E1]|]; [|exact I].
+    destruct (nexpr cf L c U1 E1) as [[[cc U2] E2]|]; [|exact I]. cbv zeta.
+    pose proof (nblk_sz_aux cf t (nlist_sz_aux cf t IHt) L d U2 E2 fs (pos + code_size ca + code_size cc + code_size [ILess; IJumpIfFalse 0; IPop]) l1 l2 Hd) as H1.
+    unfold nres_sz in H1.
+    destruct (nblk cf t d L U2 E2 fs _ (Some l1)) as [[[[[c1 L1] U3] E3] f1]|];
+      destruct (nblk cf t d L U2 E2 fs _ (Some l2)) as [[[[[c2 L2] U4] E4] f2]|]; try contradiction; [|exact I].
+    destruct H1 as (Hs1 & -> & -> & -> & ->). rewrite Hs1.
+    pose proof (nblk_sz_aux cf e (nlist_sz_aux cf e IHe) L2 d U4 E4 f2
+                  (pos + code_size ca + code_size cc + code_size [ILess; IJumpIfFalse 0; IPop] + code_size c2 + code_size [IJump 0; IPop]) l1 l2 Hd) as H2.
+    unfold nres_sz in H2.
+    destruct (nblk cf e d L2 U4 E4 f2 _ (Some l1)) as [[[[[c3 L3] U5] E5] f3]|];
+      destruct (nblk cf e d L2 U4 E4 f2 _ (Some l2)) as [[[[[c4 L4] U6] E6] f4]|]; try contradiction; [|exact I].
+    destruct H2 as (Hs2 & -> & -> & -> & ->). cbn [nres_sz]. rewrite !code_size_app. cbn [code_size isize]. rewrite ?code_size_app. cbn [code_size isize].
+    repeat split; auto. lia.
+  - intros L d U E fs pos l1 l2 Hd. cbn [nstmt]. cbv zeta. rewrite Hd. cbn [nres_sz]. rewrite !code_size_app. cbn. auto.
+  - intros L d U E fs pos l1 l2 Hd. cbn [nstmt]. cbv zeta. rewrite Hd. cbn [nres_sz]. rewrite !code_size_app. cbn. auto.
+Qed.
+
+Lemma nblk_lc_sz : forall cf b, forallb stmt6u b = true -> forall L d U E fs pos l1 l2, lc_depth l1 = lc_depth l2 ->
+  nres_sz (nblk cf b d L U E fs pos (Some l1)) (nblk cf b d L U E fs pos (Some l2)).
+Proof.
+  intros cf b Hb. apply nblk_sz_aux. apply nlist_sz_aux. induction b as [|a r IH]; constructor.
+  - cbn in Hb. apply andb_prop in Hb as [Ha _]. now apply nstmt_lc_sz.
+  - cbn in Hb. apply andb_prop in Hb as [_ Hr]. auto.
+Qed.
